@@ -518,6 +518,10 @@ func (e *specEnv) evalIndex(s *SpecExpr) (Term, types.Type) {
 		k, _ := e.eval(s.Args[1])
 		return sel(*e.loop.visited, k), types.Typ[types.Bool]
 	}
+	if id := s.Args[0]; id.Kind == "ident" && id.Name == "$outervisited" && e.loop != nil && e.loop.outer != nil && e.loop.outer.visited != nil {
+		k, _ := e.eval(s.Args[1])
+		return sel(*e.loop.outer.visited, k), types.Typ[types.Bool]
+	}
 	b, t := e.eval(s.Args[0])
 	i, it := e.eval(s.Args[1])
 	switch u := x.subst(types.Unalias(t)).Underlying().(type) {
